@@ -386,6 +386,7 @@ def gen_networks() -> str:
         if by_hand != T.compile(text):
             raise GenError("template %r: token-wise compilation differs from compile()" % text)
     out.append("(* templates of ContractAPI.info_for_script in call order; (true, X) = quoted placeholder 'X', (false, N) = opcode name *)\n")
+    out.append("".join("(*   %s *)\n" % text for text, _ in tm))
     out.append("Definition match_templates : list (list (bool * list byte)) :=\n  [ " + ";\n    ".join(
         "[" + "; ".join("(%s, %s)" % ("true" if q else "false", coq_str(t)) for q, t in toks) + "]" for _, toks in tm) + " ].\n\n")
     names, lo, hi, pkh, seg, syn = _match_constants()
@@ -398,7 +399,7 @@ def gen_networks() -> str:
     out.append("(* _SCRIPT_LOOKUP: type, tokens of the format string: inl true = %s slot, inl false = %d slot, inr name = opcode *)\n")
     fm = _script_formats()
     out.append("Definition script_formats : list (list byte * list (bool + list byte)) :=\n  [ " + ";\n    ".join(
-        "(%s, [%s])" % (coq_str(n), "; ".join("inl true" if t is None else ("inl false" if t == "%d" else "inr " + coq_str(t)) for t in toks))
+        "(* %s *) (%s, [%s])" % (n, coq_str(n), "; ".join("inl true" if t is None else ("inl false" if t == "%d" else "inr " + coq_str(t)) for t in toks))
         for n, toks in fm) + " ].\n\n")
     pc, segp, (enc32, enc32m) = _parse_constants()
     out.append("Definition p2pkh_payload_len : nat := %d.\nDefinition p2sh_payload_len : nat := %d.\n" % (pc["p2pkh"], pc["p2sh"]))
